@@ -65,6 +65,10 @@ def brownian_programs():
     P.append(Prog('reverse_bm', 'Brownian', pb.reverse_bm,
                   lambda rng: dict(ta=-rng.uniform(1, 2), tb=-rng.uniform(0, 1), Wb=rng.gauss(0, 1), Ub=rng.gauss(0, 1)),
                   props=('C03',)))
+    P.append(Prog('tree_points', 'Brownian', pb.tree_points,
+                  lambda rng: dict(p1=rng.uniform(0, 1), p2=rng.uniform(0, 1), qa=rng.uniform(0, 0.5), qb=rng.uniform(0.5, 1),
+                                   w0=rng.gauss(0, 1), Wa=rng.gauss(0, 1), Wb=rng.gauss(0, 1), Wc=rng.gauss(0, 1)),
+                  props=('C06', 'C03'), note='BrownianTree wrapper: point evaluations are stateless'))
     P.append(Prog('reverse_bm_UA', 'Brownian', pb.reverse_bm_UA,
                   lambda rng: dict(ta=-rng.uniform(1, 2), tb=-rng.uniform(0, 1), Wb=np.array([[rng.gauss(0, 1), rng.gauss(0, 1)]]),
                                    Ub=np.array([[rng.gauss(0, 1), rng.gauss(0, 1)]]),
